@@ -40,7 +40,7 @@ def gen_case(r, idx):
     deps = []
     kinds = []
     for _ in range(r.choice([0, 1, 2, 3, 4, 6, 8]) if r.random() > 0.01 else r.randint(60, 300)):
-        k = r.choice(["libcnb", "libcnb", "rel", "rel", "abs", "other", "other", "dup"])
+        k = r.choice(["libcnb", "libcnb", "rel", "rel", "abs", "other", "other", "dup", "rel-like-id"])
         if k == "dup" and deps:
             deps.append(r.choice(deps))
             kinds.append("dup")
@@ -49,11 +49,14 @@ def gen_case(r, idx):
             deps.append("libcnb:" + r.choice(IDS))
         elif k == "rel":
             deps.append(rel_path(r))
+        elif k == "rel-like-id":
+            # a relative path that happens to spell a buildpack id of the map: still a path
+            deps.append(r.choice([i for i in IDS if ":" not in i]))
         elif k == "abs":
             deps.append(r.choice(ABS_PATHS))
         else:
             deps.append(r.choice(OTHER_URIS))
-        kinds.append(k if k != "dup" else "other")
+        kinds.append({"dup": "other", "rel-like-id": "rel"}.get(k, k))
     os_ = r.choice([None, "linux", "windows"])
     bp_uri = r.choice([".", "./", "../other", "docker://x/y", "bp"])
     referenced = sorted({d[len("libcnb:"):] for d in deps if d.startswith("libcnb:")})
